@@ -8,8 +8,10 @@ SEQ = lambda prof, q, t: {"quick": [("seq", {"profile": prof, "count": q})],
 
 PROPS = {
     "C01": {"suites": {"quick": SEQ("C01", 1500, 60000)["quick"] + [("seq", {"profile": "C20", "count": 600})], "thorough": SEQ("C01", 1500, 60000)["thorough"] + [("seq", {"profile": "C20", "count": 30000})]}, "design": "6/C01"},
-    "C02": {"suites": SEQ("C02", 1500, 60000), "design": "6/C02"},
-    "C05": {"suites": SEQ("C05", 1500, 60000), "design": "6/C05"},
+    "C02": {"suites": {"quick": SEQ("C02", 1500, 60000)["quick"] + [("sched", {"profile": "C02", "count": 80, "per_case": 60}), ("stress", {"count": 800})],
+                       "thorough": SEQ("C02", 1500, 60000)["thorough"] + [("sched", {"profile": "C02", "count": 1500, "per_case": 2000}), ("stress", {"count": 20000})]}, "design": "6/C02"},
+    "C05": {"suites": {"quick": SEQ("C05", 1500, 60000)["quick"] + [("sched", {"profile": "C05", "count": 80, "per_case": 60}), ("stress", {"count": 800})],
+                       "thorough": SEQ("C05", 1500, 60000)["thorough"] + [("sched", {"profile": "C05", "count": 1500, "per_case": 2000}), ("stress", {"count": 20000})]}, "design": "6/C05"},
     "C06": {"suites": SEQ("C06", 1500, 60000), "design": "6/C06"},
     "C07": {"suites": SEQ("C07", 1500, 60000), "design": "6/C07"},
     "C08": {"suites": {"quick": SEQ("C08", 1500, 60000)["quick"] + [("stress", {"count": 1000})], "thorough": SEQ("C08", 1500, 60000)["thorough"] + [("stress", {"count": 20000})]}, "design": "6/C08"},
@@ -26,8 +28,8 @@ PROPS.update({
     "C13": {"suites": STREAM("C13", 120, 1500), "design": "6/C13", "projection": core.framing_projection(with_dump=True)},
     "C18": {"suites": {"quick": STREAM("C18", 120, 1500)["quick"] + [("server", {"count": 16})], "thorough": STREAM("C18", 120, 1500)["thorough"] + [("server", {"count": 300})]},
             "design": "6/C18", "projection": core.framing_projection(with_dump=True)},
-    "C10": {"suites": {"quick": STREAM("C10", 120, 1500)["quick"] + [("grid", {"count": 3000})],
-                       "thorough": STREAM("C10", 120, 1500)["thorough"] + [("grid", {"count": 60000})]},
+    "C10": {"suites": {"quick": STREAM("C10", 120, 1500)["quick"] + [("grid", {"count": 3000}), ("seq", {"profile": "C05", "count": 500}), ("seq", {"profile": "ALL", "count": 500})],
+                       "thorough": STREAM("C10", 120, 1500)["thorough"] + [("grid", {"count": 60000}), ("seq", {"profile": "C05", "count": 20000}), ("seq", {"profile": "ALL", "count": 20000})]},
             "design": "6/C10", "projection": core.framing_projection()},
 })
 
